@@ -5,6 +5,7 @@ Core Lean only (linked into drv_c02 / drv_c03).
 -/
 import UtapModel.Model.Pratt
 import UtapModel.Gen.ExprGrammar
+import UtapModel.Gen.QueryTables
 
 namespace UtapModel.ExprTable
 open UtapModel.Pratt UtapModel.ExprGrammar
@@ -201,7 +202,14 @@ def skipWs : List Char → List Char
 
 def trimStr (s : String) : String := s.trimAscii.toString
 
-partial def lexGo (cs : List Char) (acc : List Tok) : Option (List Tok) :=
+/-- query mode: the token of a terminal that only the query layer uses (Model/Query.lean `qtok` gives the same numbers) -/
+def queryOnlyTok (tn : String) : Option Tok :=
+  if tokNames.contains tn then some (.sym (tokId tn))
+  else if UtapModel.QueryTables.queryTokNames.contains tn then some (.sym (1000 + UtapModel.QueryTables.queryTokNames.idxOf tn))
+  else none
+
+/-- `qm` = property syntax: the one-letter rules and the property keywords of the query layer are tokens -/
+partial def lexGo (cs : List Char) (acc : List Tok) (qm : Bool := false) : Option (List Tok) :=
   match skipWs cs with
   | [] => some acc.reverse
   | c :: r =>
@@ -227,18 +235,32 @@ partial def lexGo (cs : List Char) (acc : List Tok) : Option (List Tok) :=
         | [] => ([], r2)
       if frac.isEmpty && ex.isEmpty then
         match lexNum ds with
-        | .nat n => lexGo r1 (.atom (.nat n) :: acc)
-        | .posNegMax => lexGo r1 (.posNegMax :: acc)
+        | .nat n => lexGo r1 (.atom (.nat n) :: acc) qm
+        | .posNegMax => lexGo r1 (.posNegMax :: acc) qm
         | .overflow => none
-      else lexGo r3 (.atom (.dbl (String.ofList (ds ++ frac ++ ex))) :: acc)
+      else lexGo r3 (.atom (.dbl (String.ofList (ds ++ frac ++ ex))) :: acc) qm
     else if isAlpha c then
       let (w, r1) := takeWhileL isIdChr (c :: r)
       let word := String.ofList w
       -- the one-letter tokens "A" "U" "R" "W" "E" precede the identifier rule; NonTypeId re-admits them
+      -- flex takes the longest match: `A[]`, `A<>`, `E<>`, `E[]` (and their `+` / `*` forms) beat the one-letter rules
+      let litTok : Option (Tok × List Char) :=
+        if !qm then none
+        else match matchLiteral (c :: r) with
+          | some (l, tn) => if l.length ≥ w.length then (queryOnlyTok tn).map (fun t => (t, (c :: r).drop l.length)) else none
+          | none => none
+      if let some (t, rl) := litTok then lexGo rl (t :: acc) qm else
+      let qt : Option Tok :=
+        if !qm then none
+        else if UtapModel.QueryTables.singleLetterToks.contains word then queryOnlyTok ("'" ++ word ++ "'")
+        else match UtapModel.QueryTables.propertyKeywords.find? (fun x => x.1 == word) with
+          | some (_, tn) => if tokNames.contains tn then none else queryOnlyTok tn
+          | none => none
+      if let some t := qt then lexGo r1 (t :: acc) qm else
       match keywordsNew.find? (fun x => x.1 == word) with
       | some (_, tn) =>
-        if tn == "T_TRUE" then lexGo r1 (.atom .tru :: acc)
-        else if tn == "T_FALSE" then lexGo r1 (.atom .fls :: acc)
+        if tn == "T_TRUE" then lexGo r1 (.atom .tru :: acc) qm
+        else if tn == "T_FALSE" then lexGo r1 (.atom .fls :: acc) qm
         else if tokNames.contains tn && quantProds.any (fun x => x.1 == tokId tn) then
           -- quantifier head: `( id : type )`
           match skipWs r1 with
@@ -249,34 +271,34 @@ partial def lexGo (cs : List Char) (acc : List Tok) : Option (List Tok) :=
               match s.splitOn ":" with
               | idp :: tyParts =>
                 if tyParts.isEmpty then none
-                else lexGo r3 (.quant (tokId tn) (trimStr idp) (trimStr (":".intercalate tyParts)) :: acc)
+                else lexGo r3 (.quant (tokId tn) (trimStr idp) (trimStr (":".intercalate tyParts)) :: acc) qm
               | [] => none
             | none => none
           | _ => none
-        else if tokNames.contains tn then lexGo r1 (.sym (tokId tn) :: acc)
+        else if tokNames.contains tn then lexGo r1 (.sym (tokId tn) :: acc) qm
         else match fnIndex tn with
-          | some (i, a) => lexGo r1 (.fn i a :: acc)
+          | some (i, a) => lexGo r1 (.fn i a :: acc) qm
           | none => none            -- a keyword that cannot occur in an expression
-      | none => lexGo r1 (.atom (.ident word) :: acc)
+      | none => lexGo r1 (.atom (.ident word) :: acc) qm
     else if c == '"' then
       let (body, r1) := takeWhileL (fun x => x != '"') r
       match r1 with
-      | '"' :: r2 => if body.isEmpty then none else lexGo r2 (.atom (.str (String.ofList body)) :: acc)
+      | '"' :: r2 => if body.isEmpty then none else lexGo r2 (.atom (.str (String.ofList body)) :: acc) qm
       | _ => none
     else if c == '/' && r.head? == some '/' then
       let (_, r1) := takeWhileL (fun x => x != '\n') r
-      lexGo r1 acc
+      lexGo r1 acc qm
     else
       match matchLiteral (c :: r) with
       | some (l, tn) =>
         let r1 := (c :: r).drop l.length
-        if tn == "'('" then lexGo r1 (.lp :: acc)
-        else if tn == "')'" then lexGo r1 (.rp :: acc)
-        else if tn == "'['" then lexGo r1 (.lb :: acc)
-        else if tn == "']'" then lexGo r1 (.rb :: acc)
-        else if tn == "','" then lexGo r1 (.comma :: acc)
-        else if tn == "'?'" then lexGo r1 (.quest :: acc)
-        else if tn == "':'" then lexGo r1 (.colon :: acc)
+        if tn == "'('" then lexGo r1 (.lp :: acc) qm
+        else if tn == "')'" then lexGo r1 (.rp :: acc) qm
+        else if tn == "'['" then lexGo r1 (.lb :: acc) qm
+        else if tn == "']'" then lexGo r1 (.rb :: acc) qm
+        else if tn == "','" then lexGo r1 (.comma :: acc) qm
+        else if tn == "'?'" then lexGo r1 (.quest :: acc) qm
+        else if tn == "':'" then lexGo r1 (.colon :: acc) qm
         else if tn == "'.'" then
           match skipWs r1 with
           | d :: r2 =>
@@ -284,14 +306,18 @@ partial def lexGo (cs : List Char) (acc : List Tok) : Option (List Tok) :=
               let (w, r3) := takeWhileL isIdChr (d :: r2)
               let word := String.ofList w
               match keywordsNew.find? (fun x => x.1 == word) with
-              | some (_, tn2) => if tn2 == "T_LOCATION" then lexGo r3 (.dotLoc :: acc) else none
-              | none => lexGo r3 (.dot word :: acc)
+              | some (_, tn2) => if tn2 == "T_LOCATION" then lexGo r3 (.dotLoc :: acc) qm else none
+              | none => lexGo r3 (.dot word :: acc) qm
             else none
           | [] => none
-        else if tokNames.contains tn then lexGo r1 (.sym (tokId tn) :: acc)
+        else if tokNames.contains tn then lexGo r1 (.sym (tokId tn) :: acc) qm
+        else if qm then (match queryOnlyTok tn with | some t => lexGo r1 (t :: acc) qm | none => none)
         else none
       | none => none
 
 def lexExpr (s : String) : Option (List Tok) := lexGo s.toList []
+
+/-- a query text in the property syntax -/
+def lexQuery (s : String) : Option (List Tok) := lexGo s.toList [] true
 
 end UtapModel.ExprTable
